@@ -59,6 +59,18 @@ var c20Stores = [][2]string{
 
 type c20KV struct{ k, v []byte }
 
+var c20Pop *c20Population
+
+// is this genesis key (= module name) one of the 15 DeFi modules?
+func c20IsDefi(name string) bool {
+	for _, s := range c20Stores {
+		if s[1] == name {
+			return true
+		}
+	}
+	return false
+}
+
 // module directory of a module (= store) name; other modules keep their name
 func c20ModuleDir(name string) string {
 	for _, s := range c20Stores {
@@ -449,13 +461,22 @@ func (w *c20World) buildLiquidity() {
 	w.msg("liq pair 3 (no pool)", liquiditytypes.NewMsgCreatePair(1, w.u[0], "uasset1", "uasset3")) // pair and pool counters differ
 	w.msg("liq pool", liquiditytypes.NewMsgCreatePool(1, w.u[0], 1, coins("1000000000000uasset1,1000000000000uasset2")))
 	w.msg("liq pool 2", liquiditytypes.NewMsgCreatePool(1, w.u[0], 2, coins("1000000000000uasset3,1000000000000uasset4")))
-	// the same farmer in two pools of one app (these positions are active by the time of the export), a second farmer in one
+	// a ranged pool next to the basic pool of pair 1 (pool id 3 != pair id 1) and a fourth pair without pool (pair counter 4, pool counter 3)
+	w.msg("liq ranged pool 3 (pair 1)", liquiditytypes.NewMsgCreateRangedPool(1, w.u[0], 1, coins("500000000000uasset1,500000000000uasset2"),
+		c20Dec("0.5"), c20Dec("2.0"), c20Dec("1.0")))
+	w.msg("liq pair 4 (no pool)", liquiditytypes.NewMsgCreatePair(1, w.u[0], "uasset2", "uasset3"))
+	// the same farmer in the pools of one app (these positions are active by the time of the export), a second farmer in two
 	w.msg("liq farm u1", liquiditytypes.NewMsgFarm(1, 1, w.u[0], sdk.NewCoin("pool1-1", sdk.NewInt(1000000000))))
 	w.msg("liq farm u1 pool 2", liquiditytypes.NewMsgFarm(1, 2, w.u[0], sdk.NewCoin("pool1-2", sdk.NewInt(700000000))))
+	w.msg("liq farm u1 pool 3", liquiditytypes.NewMsgFarm(1, 3, w.u[0], sdk.NewCoin("pool1-3", sdk.NewInt(600000000))))
 	w.step("liq transfer pool coin", func() error {
-		return w.app.BankKeeper.SendCoins(w.ctx, w.u[0], w.u[1], sdk.NewCoins(sdk.NewCoin("pool1-1", sdk.NewInt(50000000))))
+		if err := w.app.BankKeeper.SendCoins(w.ctx, w.u[0], w.u[1], sdk.NewCoins(sdk.NewCoin("pool1-1", sdk.NewInt(50000000)), sdk.NewCoin("pool1-3", sdk.NewInt(40000000)))); err != nil {
+			return err
+		}
+		return w.app.BankKeeper.SendCoins(w.ctx, w.u[0], w.u[2], sdk.NewCoins(sdk.NewCoin("pool1-3", sdk.NewInt(20000000))))
 	})
 	w.msg("liq farm u2", liquiditytypes.NewMsgFarm(1, 1, w.u[1], sdk.NewCoin("pool1-1", sdk.NewInt(30000000))))
+	w.msg("liq farm u2 pool 3", liquiditytypes.NewMsgFarm(1, 3, w.u[1], sdk.NewCoin("pool1-3", sdk.NewInt(25000000))))
 	w.msg("ext rewards lend", rewardstypes.NewMsgActivateExternalRewardsLend(3, 1, []uint64{1, 2}, 1, 1, sdk.NewCoin("uasset4", sdk.NewInt(5000000)), 1, 10, 1, w.u[0]))
 	w.msg("gauge", &rewardstypes.MsgCreateGauge{From: w.u[0].String(), AppId: 1, StartTime: w.ctx.BlockTime().Add(time.Hour), GaugeTypeId: 1,
 		TriggerDuration: 24 * time.Hour, DepositAmount: sdk.NewCoin("ucmdx", sdk.NewInt(10000000)), TotalTriggers: 5,
@@ -467,15 +488,28 @@ func (w *c20World) buildLiquidityPending() {
 	coins := func(s string) sdk.Coins { c, _ := sdk.ParseCoinsNormalized(s); return c }
 	w.msg("liq deposit", liquiditytypes.NewMsgDeposit(1, w.u[1], 1, coins("50000000uasset1,50000000uasset2")))
 	w.msg("liq withdraw", liquiditytypes.NewMsgWithdraw(1, w.u[0], 1, sdk.NewCoin("pool1-1", sdk.NewInt(1000000))))
+	// requests against the ranged pool (request id != pool id, two deposits and one withdrawal: the pool's request counters differ)
+	w.msg("liq deposit pool 3", liquiditytypes.NewMsgDeposit(1, w.u[1], 3, coins("20000000uasset1,20000000uasset2")))
+	w.msg("liq deposit pool 3 (2)", liquiditytypes.NewMsgDeposit(1, w.u[3], 3, coins("7000000uasset1,7000000uasset2")))
+	w.msg("liq deposit pool 3 (3)", liquiditytypes.NewMsgDeposit(1, w.u[2], 3, coins("3000000uasset1,3000000uasset2")))
+	w.msg("liq withdraw pool 3", liquiditytypes.NewMsgWithdraw(1, w.u[0], 3, sdk.NewCoin("pool1-3", sdk.NewInt(2000000))))
+	w.msg("liq withdraw pool 3 (2)", liquiditytypes.NewMsgWithdraw(1, w.u[1], 3, sdk.NewCoin("pool1-3", sdk.NewInt(1500000))))
 	w.msg("liq order sell", liquiditytypes.NewMsgLimitOrder(1, w.u[2], 1, liquiditytypes.OrderDirectionSell, sdk.NewCoin("uasset1", sdk.NewInt(1003000)),
 		"uasset2", c20Dec("1.05"), sdk.NewInt(1000000), 10*time.Hour))
 	w.msg("liq order buy", liquiditytypes.NewMsgLimitOrder(1, w.u[3], 1, liquiditytypes.OrderDirectionBuy, sdk.NewCoin("uasset2", sdk.NewInt(952850)),
 		"uasset1", c20Dec("0.95"), sdk.NewInt(1000000), 10*time.Hour))
 	w.msg("liq mm order", liquiditytypes.NewMsgMMOrder(1, w.u[1], 1, c20Dec("1.10"), c20Dec("1.06"), sdk.NewInt(3000000), c20Dec("0.94"), c20Dec("0.90"),
 		sdk.NewInt(3000000), 10*time.Hour))
-	// … and the same farmer queued again in both pools
+	// orders of a second pair (pair id != app id)
+	w.msg("liq order sell pair 2", liquiditytypes.NewMsgLimitOrder(1, w.u[2], 2, liquiditytypes.OrderDirectionSell, sdk.NewCoin("uasset3", sdk.NewInt(2006000)),
+		"uasset4", c20Dec("1.04"), sdk.NewInt(2000000), 10*time.Hour))
+	w.msg("liq mm order pair 2", liquiditytypes.NewMsgMMOrder(1, w.u[3], 2, c20Dec("1.10"), c20Dec("1.06"), sdk.NewInt(3000000), c20Dec("0.94"), c20Dec("0.90"),
+		sdk.NewInt(3000000), 10*time.Hour))
+	// … and the same farmer queued again in all three pools; a farmer who is ONLY queued, in the ranged pool
 	w.msg("liq farm again", liquiditytypes.NewMsgFarm(1, 1, w.u[0], sdk.NewCoin("pool1-1", sdk.NewInt(500000))))
 	w.msg("liq farm again pool 2", liquiditytypes.NewMsgFarm(1, 2, w.u[0], sdk.NewCoin("pool1-2", sdk.NewInt(300000))))
+	w.msg("liq farm again pool 3", liquiditytypes.NewMsgFarm(1, 3, w.u[0], sdk.NewCoin("pool1-3", sdk.NewInt(200000))))
+	w.msg("liq farm u3 pool 3 (queued only)", liquiditytypes.NewMsgFarm(1, 3, w.u[2], sdk.NewCoin("pool1-3", sdk.NewInt(15000000))))
 	// the most recently created vault is closed again: the vault id counter is ahead of every live vault
 	w.msg("vault last", vaulttypes.NewMsgCreateRequest(w.u[2], 2, 1, sdk.NewInt(300000000), sdk.NewInt(1000000)))
 	w.msg("close vault last", &vaulttypes.MsgCloseRequest{From: w.u[2].String(), AppId: 2, ExtendedPairVaultId: 1, UserVaultId: w.app.VaultKeeper.GetIDForVault(w.ctx)})
@@ -637,7 +671,7 @@ var c20OpModules = map[string][]string{
 	"locker_withdraw": {"locker"}, "locker_deposit": {"locker", "rewards"}, "locker_reward_calc": {"locker", "collector", "rewards"},
 	"new_lend_id": {"lend"}, "new_borrow_id": {"lend", "market"}, "lend_deposit_withdraw": {"lend"},
 	"new_order_id": {"liquidity"}, "new_pair_id": {"liquidity"}, "cancel_order": {"liquidity"}, "liq_deposit_request_id": {"liquidity"},
-	"liq_unfarm": {"liquidity"}, "v2_limit_bid_id": {"auctionsV2"}, "v2_limit_bid_withdraw": {"auctionsV2"},
+	"liq_unfarm": {"liquidity"}, "liq_unfarm_queued": {"liquidity"}, "v2_limit_bid_id": {"auctionsV2"}, "v2_limit_bid_withdraw": {"auctionsV2"},
 	"v2_market_bid_id": {"auctionsV2", "liquidationsV2", "market"}, "v2_liquidate_vault_id": {"liquidationsV2", "auctionsV2", "vault", "market"},
 	"v1_dutch_bid_id": {"auction", "liquidation", "vault"}, "v1_lend_bid": {"auction", "liquidation", "lend"},
 	"new_gauge_id": {"rewards", "liquidity"}, "ext_rewards_locker_id": {"rewards", "locker"}, "ext_rewards_stable_id": {"rewards"},
@@ -707,6 +741,17 @@ func c20Continuation(us []sdk.AccAddress) []c20Op {
 		{"liq_unfarm", m(func() sdk.Msg {
 			return liquiditytypes.NewMsgUnfarm(1, 1, us[0], sdk.NewCoin("pool1-1", sdk.NewInt(400000)))
 		}, nil)},
+		{"liq_unfarm_queued", m(func() sdk.Msg {
+			// a position that is still in the farming queue of the ranged pool 3 (pool id != pair id)
+			return liquiditytypes.NewMsgUnfarm(1, 3, us[2], sdk.NewCoin("pool1-3", sdk.NewInt(10000000)))
+		}, func(a *chain.App, c sdk.Context) string {
+			q, _ := a.LiquidityKeeper.GetQueuedFarmer(c, 1, 3, us[2])
+			n := sdk.ZeroInt()
+			for _, qc := range q.QueudCoins {
+				n = n.Add(qc.FarmedPoolCoin.Amount)
+			}
+			return n.String() + "/" + a.BankKeeper.GetBalance(c, us[2], "pool1-3").Amount.String()
+		})},
 		{"asset_new_ids", func(a *chain.App, c sdk.Context) string {
 			cc, write := c.CacheContext()
 			if err := a.AssetKeeper.AddAssetRecords(cc, assettypes.Asset{Name: "NEWASSET", Denom: "unewasset", Decimals: sdk.NewInt(1000000), IsOnChain: true}); err != nil {
@@ -906,10 +951,12 @@ func c20Cases() []c20Case {
 func TestC20(t *testing.T) {
 	tr := OpenTrace(t, "c20.trace")
 	defer tr.Close(t)
+	c20Pop = c20NewPopulation()
 	for _, c := range c20Cases() {
 		c20RunCase(t, tr, c)
 		tr.Count("case:" + strings.SplitN(c.name, "+", 2)[0])
 	}
+	c20Pop.report(tr)
 	// which continuation operations exercise which module's restored state
 	matrix := map[string][]string{}
 	for _, s := range c20Stores {
@@ -971,6 +1018,11 @@ func c20RunCase(t *testing.T, tr *Trace, cs c20Case) {
 	var genesisMap map[string]json.RawMessage
 	if err := json.Unmarshal(exp.AppState, &genesisMap); err != nil {
 		t.Fatal(err)
+	}
+	for n, raw := range genesisMap {
+		if c20IsDefi(n) {
+			c20Pop.addState(tr, c20ModuleDir(n), raw)
+		}
 	}
 	enc := chain.MakeEncodingConfig()
 	refused := false
